@@ -1156,7 +1156,8 @@ impl UntypedExpr {
                     let x = x.type_check(top_level_defs, env, fns, defs)?;
                     let mut y = y.type_check(top_level_defs, env, fns, defs)?;
                     expect_num_type(&x.ty, x.meta)?;
-                    check_or_constrain_unsigned(&mut y, UnsignedNumType::U8)?;
+                    // reaches un-suffixed literals in the branches / blocks of the shift amount
+                    check_type(&mut y, &Type::Unsigned(UnsignedNumType::U8))?;
                     (ExprEnum::Op(*op, Box::new(x.clone()), Box::new(y)), x.ty)
                 }
             },
